@@ -395,6 +395,8 @@ end
 /-- every name occurs once in the space tree (walking genuine compounds only) -/
 def NodupNames (D : Sp) : Prop := (names D).Nodup
 
+instance (D : Sp) : Decidable (NodupNames D) := inferInstanceAs (Decidable (names D).Nodup)
+
 /-- same-named nodes of the two space trees are the same space -/
 def Coherent (D S : Sp) : Prop := ∀ x ∈ nodes D, ∀ y ∈ nodes S, x.name = y.name → x = y
 
@@ -1074,5 +1076,193 @@ theorem csd_fits (D : Sp) (d : St) (S : Sp) (s : St) (hnD : NodupNames D) (hnS :
     fits D (csd D d S s).1 = true := by
   rw [csd_state D d S s hnD hnS hc hd hs]
   exact fits_specCsd hs D d hc hd
+
+/-! ### the specification read node by node: common subspaces take the source's value, the rest is kept -/
+
+theorem findStateL_isSome (nm : Nat) : ∀ (cs : List Sp) (ss : List St),
+    (∀ c ∈ cs, ∀ sc, fits c sc = true → nm ∈ names c → ∃ t, findState c sc nm = some t) →
+    fitsL cs ss = true → nm ∈ namesL cs → ∃ t, findStateL cs ss nm = some t
+  | [], _, _, _, h => by simp [namesL] at h
+  | c :: cs, ss, ih, hf, h => by
+    obtain ⟨s0, ss', rfl, hf0, hfl⟩ := fitsL_cons hf
+    simp only [findStateL]
+    cases h0 : findState c s0 nm with
+    | some t => exact ⟨t, by simp⟩
+    | none =>
+      simp only [namesL, List.mem_append] at h
+      rcases h with h | h
+      · obtain ⟨t, ht⟩ := ih c (by simp) s0 hf0 h
+        rw [ht] at h0; cases h0
+      · simpa using findStateL_isSome nm cs ss' (fun c' hc' => ih c' (by simp [hc'])) hfl h
+
+theorem findState_isSome (nm : Nat) : ∀ (S : Sp) (s : St), fits S s = true → nm ∈ names S →
+    ∃ t, findState S s nm = some t := by
+  intro S
+  induction S using Sp.ind with
+  | h S ih =>
+    intro s hf h
+    by_cases hn : S.name = nm
+    · exact ⟨s, by rw [← hn, findState_self]⟩
+    · cases hch : S.children with
+      | none => rw [names_noncomp S hch] at h; simp at h; exact absurd h.symm hn
+      | some cs =>
+        obtain ⟨n, rfl⟩ := children_some hch
+        simp only [Sp.children, Option.getD_some] at ih
+        obtain ⟨ss, rfl, hfl⟩ := fits_compound hf
+        have hn' : ¬ n = nm := hn
+        simp only [names, List.mem_cons] at h
+        simp only [findState, hn', if_false, St.children]
+        exact findStateL_isSome nm cs ss ih hfl (h.resolve_left (fun h => hn' h.symm))
+
+theorem findStateL_specCsdL_common {S : Sp} {s : St} (hs : fits S s = true) (x : Sp)
+    (hx : x.name ∈ names S) : ∀ (cs : List Sp) (ds : List St),
+    (∀ c ∈ cs, ∀ d, fits c d = true → x ∈ nodes c →
+      findState c (specCsd S s c d) x.name = findState S s x.name) →
+    (namesL cs).Nodup → fitsL cs ds = true → x ∈ nodesL cs →
+    findStateL cs (specCsdL S s cs ds) x.name = findState S s x.name
+  | [], _, _, _, _, h => by simp [nodesL] at h
+  | c :: cs, ds, ih, hn, hf, h => by
+    obtain ⟨d0, ds', rfl, hf0, hfl⟩ := fitsL_cons hf
+    have hnn := (nodupL_cons c cs).mp hn
+    simp only [specCsdL, findStateL]
+    simp only [nodesL, List.mem_append] at h
+    rcases h with h | h
+    · rw [ih c (by simp) d0 hf0 h]
+      obtain ⟨t, ht⟩ := findState_isSome _ S s hs hx
+      simp [ht]
+    · have hxc : x.name ∉ names c := fun hc => hnn.2.2 _ hc
+        ((mem_namesL_nodes cs _).mpr ⟨x, h, rfl⟩)
+      rw [findState_notin _ c _ hxc, Option.none_or]
+      exact findStateL_specCsdL_common hs x hx cs ds' (fun c' hc' => ih c' (by simp [hc'])) hnn.2.1 hfl h
+
+/-- a destination node named like a source node ends up with the source's substate -/
+theorem specCsd_common {S : Sp} {s : St} (hnS : NodupNames S) (hs : fits S s = true) (x : Sp)
+    (hx : x.name ∈ names S) : ∀ (D : Sp) (d : St), NodupNames D → Coherent D S → fits D d = true →
+    x ∈ nodes D → findState D (specCsd S s D d) x.name = findState S s x.name := by
+  intro D
+  induction D using Sp.ind with
+  | h D ih =>
+    intro d hnD hc hd hxD
+    rcases (mem_nodes_iff D x).mp hxD with rfl | ⟨c, hcc, hxc⟩
+    · obtain ⟨t, ht⟩ := findState_isSome _ S s hs hx
+      rw [findState_self, specCsd_some d ht, ht]
+    · cases hch : D.children with
+      | none => simp [hch] at hcc
+      | some cs =>
+        obtain ⟨n, rfl⟩ := children_some hch
+        simp only [Sp.children, Option.getD_some] at ih hcc
+        obtain ⟨ds, rfl, hdl⟩ := fits_compound hd
+        have hnn := (nodup_compound n cs).mp hnD
+        have hxl : x ∈ nodesL cs := (mem_nodesL x cs).mpr ⟨c, hcc, hxc⟩
+        have hne : ¬ n = x.name := fun h => hnn.1 (h ▸ (mem_namesL_nodes cs _).mpr ⟨x, hxl, rfl⟩)
+        rw [specCsd_comp hnS hs hc hdl]
+        simp only [findState, hne, if_false, St.children]
+        exact findStateL_specCsdL_common hs x hx cs ds
+          (fun c' hc' d' hf' hx' => ih c' hc' d' (nodupL_mem hc' hnn.2)
+            (hc.left (child_mem_nodes hc')) hf' hx') hnn.2 hdl hxl
+
+theorem findStateL_specCsdL_frame {S : Sp} {s : St} (x : Sp) : ∀ (cs : List Sp) (ds : List St),
+    (∀ c ∈ cs, ∀ d, fits c d = true → x ∈ nodes c →
+      findState c (specCsd S s c d) x.name = findState c d x.name) →
+    (namesL cs).Nodup → fitsL cs ds = true → x ∈ nodesL cs →
+    findStateL cs (specCsdL S s cs ds) x.name = findStateL cs ds x.name
+  | [], _, _, _, _, h => by simp [nodesL] at h
+  | c :: cs, ds, ih, hn, hf, h => by
+    obtain ⟨d0, ds', rfl, hf0, hfl⟩ := fitsL_cons hf
+    have hnn := (nodupL_cons c cs).mp hn
+    simp only [specCsdL, findStateL]
+    simp only [nodesL, List.mem_append] at h
+    rcases h with h | h
+    · have hxc : x.name ∉ namesL cs := hnn.2.2 _
+        (names_sub_of_mem_nodes c x h _ (name_mem_names x))
+      rw [ih c (by simp) d0 hf0 h, findStateL_notin _ cs _ hxc, findStateL_notin _ cs _ hxc]
+    · have hxc : x.name ∉ names c := fun hc => hnn.2.2 _ hc
+        ((mem_namesL_nodes cs _).mpr ⟨x, h, rfl⟩)
+      rw [findState_notin _ c _ hxc, findState_notin _ c _ hxc, Option.none_or, Option.none_or]
+      exact findStateL_specCsdL_frame x cs ds' (fun c' hc' => ih c' (by simp [hc'])) hnn.2.1 hfl h
+
+/-- a destination node that shares no name with the source keeps its substate -/
+theorem specCsd_frame {S : Sp} {s : St} (hnS : NodupNames S) (hs : fits S s = true) (x : Sp)
+    (hx : ∀ nm ∈ names x, nm ∉ names S) : ∀ (D : Sp) (d : St), NodupNames D → Coherent D S →
+    fits D d = true → x ∈ nodes D → findState D (specCsd S s D d) x.name = findState D d x.name := by
+  intro D
+  induction D using Sp.ind with
+  | h D ih =>
+    intro d hnD hc hd hxD
+    rcases (mem_nodes_iff D x).mp hxD with rfl | ⟨c, hcc, hxc⟩
+    · rw [specCsd_untouched hs x d hc hd (fun y hy hyn =>
+        absurd hyn (hx _ (names_sub_of_mem_nodes x y hy _ (name_mem_names y))))]
+    · cases hch : D.children with
+      | none => simp [hch] at hcc
+      | some cs =>
+        obtain ⟨n, rfl⟩ := children_some hch
+        simp only [Sp.children, Option.getD_some] at ih hcc
+        obtain ⟨ds, rfl, hdl⟩ := fits_compound hd
+        have hnn := (nodup_compound n cs).mp hnD
+        have hxl : x ∈ nodesL cs := (mem_nodesL x cs).mpr ⟨c, hcc, hxc⟩
+        have hne : ¬ n = x.name := fun h => hnn.1 (h ▸ (mem_namesL_nodes cs _).mpr ⟨x, hxl, rfl⟩)
+        rw [specCsd_comp hnS hs hc hdl]
+        simp only [findState, hne, if_false, St.children]
+        exact findStateL_specCsdL_frame x cs ds
+          (fun c' hc' d' hf' hx' => ih c' hc' d' (nodupL_mem hc' hnn.2)
+            (hc.left (child_mem_nodes hc')) hf' hx') hnn.2 hdl hxl
+
+/-- G2 read node by node (1): every destination node named like a source node holds the source's substate
+after `copyStateData` -/
+theorem csd_common (D : Sp) (d : St) (S : Sp) (s : St) (hnD : NodupNames D) (hnS : NodupNames S)
+    (hc : Coherent D S) (hd : fits D d = true) (hs : fits S s = true) (x : Sp) (hxD : x ∈ nodes D)
+    (hx : x.name ∈ names S) : findState D (csd D d S s).1 x.name = findState S s x.name := by
+  rw [csd_state D d S s hnD hnS hc hd hs]
+  exact specCsd_common hnS hs x hx D d hnD hc hd hxD
+
+/-- G2 read node by node (2): every destination node that shares no name with the source keeps its substate -/
+theorem csd_frame (D : Sp) (d : St) (S : Sp) (s : St) (hnD : NodupNames D) (hnS : NodupNames S)
+    (hc : Coherent D S) (hd : fits D d = true) (hs : fits S s = true) (x : Sp) (hxD : x ∈ nodes D)
+    (hx : ∀ nm ∈ names x, nm ∉ names S) : findState D (csd D d S s).1 x.name = findState D d x.name := by
+  rw [csd_state D d S s hnD hnS hc hd hs]
+  exact specCsd_frame hnS hs x hx D d hnD hc hd hxD
+
+/-! ### the hypotheses of `csd_state` cannot be dropped (witnesses) -/
+
+/-- two source components with one name: the code lets the last one win, the specification the first -/
+theorem csd_state_needs_nodup_source :
+    let D : Sp := .compound 0 [.real 3 1]
+    let d : St := .comp [.leaf [.f64 1]]
+    let S : Sp := .compound 9 [.real 3 1, .real 3 1]
+    let s : St := .comp [.leaf [.f64 100], .leaf [.f64 200]]
+    (fits D d = true ∧ fits S s = true ∧ NodupNames D ∧ Coherent D S) ∧
+      (csd D d S s).1.get [0, 0] = some (.f64 200) ∧ (specCsd S s D d).get [0, 0] = some (.f64 100) := by
+  refine ⟨⟨by decide, by decide, by decide, ?_⟩, by decide, by decide⟩
+  intro x hx y hy h
+  simp only [nodes, nodesL, List.append_nil, List.mem_cons, List.not_mem_nil, or_false,
+    List.singleton_append] at hx hy
+  rcases hx with rfl | rfl <;> rcases hy with rfl | rfl | rfl <;> first | rfl | (simp [Sp.name] at h)
+
+/-- two destination components with one name: the code writes the first only, the specification both -/
+theorem csd_state_needs_nodup_dest :
+    let D : Sp := .compound 0 [.real 1 1, .real 1 1]
+    let d : St := .comp [.leaf [.f64 1], .leaf [.f64 2]]
+    let S : Sp := .real 1 1
+    let s : St := .leaf [.f64 100]
+    (fits D d = true ∧ fits S s = true ∧ NodupNames S ∧ Coherent D S) ∧
+      (csd D d S s).1.get [1, 0] = some (.f64 2) ∧ (specCsd S s D d).get [1, 0] = some (.f64 100) := by
+  refine ⟨⟨by decide, by decide, by decide, ?_⟩, by decide, by decide⟩
+  intro x hx y hy h
+  simp only [nodes, nodesL, List.append_nil, List.mem_cons, List.not_mem_nil, or_false,
+    List.singleton_append] at hx hy
+  rcases hx with rfl | rfl | rfl <;> rcases hy with rfl <;> first | rfl | (simp [Sp.name] at h)
+
+/-- a destination leaf named like a source compound (names match, spaces differ): the code's `copyState` of
+the mismatched pair writes nothing (and still reports `ALL_DATA_COPIED`), the specification would store the
+source's compound value -/
+theorem csd_state_needs_coherent :
+    let D : Sp := .compound 0 [.real 1 1]
+    let d : St := .comp [.leaf [.f64 1]]
+    let S : Sp := .compound 9 [.compound 1 [.real 2 1]]
+    let s : St := .comp [.comp [.leaf [.f64 100]]]
+    (fits D d = true ∧ fits S s = true ∧ NodupNames D ∧ NodupNames S) ∧
+      (csd D d S s).2 = .all ∧
+      (csd D d S s).1.get [0, 0] = some (.f64 1) ∧ (specCsd S s D d).get [0, 0] = none := by
+  refine ⟨⟨by decide, by decide, by decide, by decide⟩, by decide, by decide, by decide⟩
 
 end OmplModel.Copy
